@@ -99,5 +99,39 @@ Proof.
 Qed.
 
 (* a Struct expansion whose struct type nobody supplies is refused with the "no provider for struct type" code *)
-Theorem orphan_struct_refused pm provs s st r : hd_error (Gen.requires s) = Some st -> Gen.assoc st pm = None -> Gen.pass2 pm provs (s :: r) = Err 2.
-Proof. intros H1 H2. simpl. rewrite H1, H2. reflexivity. Qed.
+Theorem orphan_struct_refused pm provs s st r : hd_error (Gen.requires s) = Some st -> Gen.assoc st pm = None ->
+  Gen.has_field_of st r = false -> Gen.pass2 pm provs (s :: r) = Err 2.
+Proof. intros H1 H2 H3. unfold Gen.pass2. cbn [Gen.pass2_loop]. rewrite H1, H2, H3. reflexivity. Qed.
+
+(* More generally, wherever the orphan stands among the Struct expansions: as long as its struct type is supplied by
+   nobody - no provider, and no field of any struct waiting to be expanded - the declaration is never accepted. *)
+Lemma add_fields_assoc_none st0 t : forall fs pm provs pm' provs', Gen.add_fields pm provs st0 fs = OK (pm', provs') ->
+  Gen.assoc t pm = None -> existsb (fun f : N * N => N.eqb (snd f) t) fs = false -> Gen.assoc t pm' = None.
+Proof.
+  induction fs as [|f r IH]; intros pm provs pm' provs' H A E; simpl in H; [inversion H; subst; exact A|].
+  destruct (Gen.assoc (snd f) pm); [discriminate|]. simpl in E. apply orb_false_iff in E. destruct E as (E1 & E2).
+  eapply IH; [exact H| |exact E2]. rewrite (assoc_app_none t pm _ A). simpl. rewrite N.eqb_sym in E1. rewrite E1. reflexivity.
+Qed.
+Lemma has_field_of_app st a b : Gen.has_field_of st (a ++ b) = Gen.has_field_of st a || Gen.has_field_of st b.
+Proof. unfold Gen.has_field_of. apply existsb_app. Qed.
+Lemma orphan_never_accepted st : forall fuel pm provs ss k,
+  Gen.assoc st pm = None -> Gen.has_field_of st ss = false ->
+  (exists s, In s ss /\ hd_error (Gen.requires s) = Some st) ->
+  forall r, Gen.pass2_loop fuel pm provs ss k <> OK r.
+Proof.
+  induction fuel as [|fuel IH]; intros pm provs ss k A F (s0 & Hin & Hs0) res; simpl; [discriminate|].
+  destruct ss as [|s r]; [destruct Hin|].
+  unfold Gen.has_field_of in F. cbn [existsb] in F. apply orb_false_iff in F. destruct F as (Fs & Fr). fold (Gen.has_field_of st r) in Fr.
+  destruct (hd_error (Gen.requires s)) as [t|] eqn:Eh; [|discriminate].
+  destruct (Gen.assoc t pm) eqn:At.
+  - destruct (Gen.add_fields pm provs t (Gen.sfields s)) as [[pm1 provs1]|e] eqn:Af; [|discriminate].
+    destruct Hin as [->|Hin]; [rewrite Hs0 in Eh; inversion Eh; subst t; congruence|].
+    apply IH; [eapply add_fields_assoc_none; eauto | exact Fr | exists s0; auto].
+  - destruct (Gen.has_field_of t r && Nat.leb k (length r)); [|discriminate].
+    apply IH; [exact A| |].
+    + rewrite has_field_of_app, Fr. unfold Gen.has_field_of. cbn [existsb]. rewrite Fs. reflexivity.
+    + exists s0. split; [|exact Hs0]. destruct Hin as [->|Hin]; apply in_or_app; [right; left; auto|left; auto].
+Qed.
+Theorem orphan_struct_never_accepted pm provs ss s st : In s ss -> hd_error (Gen.requires s) = Some st ->
+  Gen.assoc st pm = None -> Gen.has_field_of st ss = false -> forall r, Gen.pass2 pm provs ss <> OK r.
+Proof. intros Hin Hs A F r. unfold Gen.pass2. apply (orphan_never_accepted st); eauto. Qed.
